@@ -96,11 +96,11 @@ def r2(ctx, R):
         st = ws[0]
         if norm(st.targets[0].slice) != "new_name" or norm(st.value) not in ("self.models.pop(old_name)", "self._models.pop(old_name)"):
             R.bad(rm, st, "re-keying is not models[new_name] = models.pop(old_name)")
-        rv = assigned_value(rm, "result")
-        okr = len(rv) == 1 and isinstance(rv[0], ast.Call) and call_name(rv[0]) == "rename" \
-            and [norm(a) for a in rv[0].args] == ["new_name"] and norm(rv[0].func.value) in (
-                "self.models[old_name]", "self._models[old_name]")
-        if not okr or ("result", "T") not in q.guards_of(rm, st):
+        RN = ("self.models[old_name].rename(new_name)", "self._models[old_name].rename(new_name)")
+        okr = any(norm(c_) in RN for c_ in q.calls(rm, name="rename"))
+        refused = q.run_abstract(rm, lambda e: "F" if norm(e) in RN else None)
+        accepted = q.run_abstract(rm, lambda e: "T" if norm(e) in RN else None)
+        if not okr or any(i in refused for i in q.nodes_for(rm, st)) or not any(i in accepted for i in q.nodes_for(rm, st)):
             R.bad(rm, st, "registry is re-keyed although the model refused the new name (entry would "
                           "overwrite the model that owns that name)")
         R.inst("rename_model: returns True exactly when re-keyed")
